@@ -32,7 +32,8 @@ NAMES = {
     "backup-named-sibling": ["f", "f.~1~"],      # the second name is recomputed per case: the number the backup of the first would get
     "long": ["L" * 250, "M" * 251, "N" * 252, "O" * 254, "P" * 255],
 }
-BSETS = {"none": [], "one": [1], "gap": [1, 3, 7], "large": [1, 2 ** 62], "many": list(range(1, 13)), "u64max": [5, 2 ** 64 - 1], "zero": [0]}
+BSETS = {"none": [], "one": [1], "gap": [1, 3, 7], "large": [1, 2 ** 62], "many": list(range(1, 13)), "u64max": [5, 2 ** 64 - 1], "zero": [0],
+         "beyond-u64": [3, 2 ** 64], "huge": [10 ** 25 + 7]}
 
 BAK = re.compile(rb"^(.*)\.~([1-9][0-9]*|0)~$", re.S)
 
